@@ -20,6 +20,7 @@ import VsgModel.Wire
 import VsgModel.Generated.ClassUids
 import VsgModel.Engine.TokenMap
 import VsgModel.Engine.Extract
+import VsgModel.Engine.Extract2Cli  -- WP3
 namespace Vsgm.TM.Cli
 open Vsgm Vsgm.TM
 
@@ -27,6 +28,7 @@ structure ITok where
   ser : Nat
   cls : Nat
   len : Nat
+  hier : Option Int := none   -- WP3: `oToken.get_hierarchy()` (optional 4th wire field)
   deriving DecidableEq, Inhabited, Repr
 
 def uidOfCls (c : Nat) : Option Key := (Gen.classUids.getD c none)
@@ -48,6 +50,7 @@ def keyOf (s : String) : Option Key := uidOfCls s.toNat!
 def decITok (s : String) : ITok :=
   match s.splitOn ":" with
   | [a, b, c] => { ser := a.toNat!, cls := b.toNat!, len := c.toNat! }
+  | [a, b, c, d] => { ser := a.toNat!, cls := b.toNat!, len := c.toNat!, hier := some (X.Cli.parseInt d) }  -- WP3
   | _ => default
 
 def decITokList (s : String) : List ITok := if s.isEmpty then [] else (s.splitOn " ").map decITok
@@ -138,7 +141,7 @@ def extract (f : List ITok) (ix : Index) : List String → String
   | ["get_line_count_between_tokens", a, b] => showTois (lineCountBetween f ix (keyOf a) (keyOf b))
   | ["get_all_tokens"] => showTois (.ok [allTokens f])
   | ["get_lines_with_length_that_exceed_column", c] => showTois (.ok (linesExceeding view f c.toNat!))
-  | _ => "unknown"
+  | args => X.Cli.extract2 view (·.hier) encToi f ix args  -- WP3
 
 /-- expands `a-b`, `a`, `bN` runs -/
 def decRuns (s : String) : List ITok :=
